@@ -558,7 +558,7 @@ def gen_api_case(rng, variant=None):
 class Prop:
     pid = 'C17'
     props_file = 'Props/C17.v'
-    required_theorems = ['attr_roundtrip_up_to_flags', 'attr_roundtrip_core_outside_known', 'attr_roundtrip_core_refuted', 'from_api_total', 'from_api_preserves_wf', 'wire_values_are_wf', 'wf_is_safe_downstream', 'api_accepted_is_safe', 'nlri_roundtrip_core', 'net_from_api_preserves_wf', 'nlri_encode_safe', 'local_path_accepts_wf', 'evpn_roundtrip', 'evpn_from_api_preserves_wf']
+    required_theorems = ['attr_roundtrip_up_to_flags', 'attr_roundtrip_core_outside_known', 'attr_roundtrip_core_refuted', 'from_api_total', 'from_api_preserves_wf', 'wire_values_are_wf', 'wf_is_safe_downstream', 'api_accepted_is_safe', 'nlri_roundtrip_core', 'net_from_api_preserves_wf', 'nlri_encode_safe', 'local_path_accepts_wf', 'evpn_roundtrip', 'evpn_from_api_preserves_wf', 'noncore_roundtrip_guarded', 'noncore_typed_from_api_wf']
     correspondence_name = ('Model/Api.v (wire_accept, to_api, from_api, net_from_api, nlri_to_api, local_path, as_path_length, encode_attr, rib_cmp, encode_nlri) vs '
                            'daemon/src/convert.rs attr_to_api / attr_from_api / nlri_to_api / net_from_api, event/grpc.rs GrpcService::local_path, '
                            'packet Attribute::{decode via PeerCodec::parse_message, as_path_length, encode_to_bytes}, Nlri::encode_to_bytes, '
@@ -566,11 +566,12 @@ class Prop:
     rule = ('case kinds: (0) one wire attribute (flags, code, value) decoded by PeerCodec::parse_message, then attr_to_api / attr_from_api; '
             '(1) one API attribute message through attr_from_api, then as_path_length / encode / attr_to_api / Table::insert next to a competitor path; '
             '(2) one API NLRI message through net_from_api, then Nlri::encode; (3) one internal IPv4/IPv6/labeled NLRI through nlri_to_api / net_from_api; '
-            '(5) a whole api::Path through GrpcService::local_path, then Table::insert; these five kinds are modelled and compared with the model value for value. '
+            '(5) a whole api::Path through GrpcService::local_path, then Table::insert; (6) one API EVPN message through net_from_api, checked to decode back from its own wire encoding; '
+            '(7) one internal EVPN route through nlri_to_api / net_from_api; these seven kinds are modelled and compared with the model value for value. '
             '(4) the wide part: a whole UPDATE of any of 19 address families with any attribute kinds (tunnel-encap, prefix-SID, BGP-LS, AIGP, AS4_*, unknown), '
             'every decoded attribute and NLRI round-tripped through the API form; NOT modelled, judged by the Spec oracle only (canon maps its observation to []), '
             'so it adds to "evaluations" and "traces_validated_against_impl" without being a model comparison: see input_distribution tags wide:*. '
-            'A case is non-trivial when the value is held / accepted (kinds 0,1,2,5), decodable (kind 3), or the UPDATE decodes to at least one attribute or NLRI (kind 4); '
+            'A case is non-trivial when the value is held / accepted (kinds 0,1,2,5,6), decodable (kinds 3,7), or the UPDATE decodes to at least one attribute or NLRI (kind 4); '
             'distinct = distinct case contents. Generators: per attribute type mostly-valid values plus boundary lengths (0, 255, 256 numbers; 4k+1 bytes), '
             'a grid Unknown{type 0..41 and beyond u8} x lengths 0..32, flags with PARTIAL / EXTENDED / reserved bits and wrong class bits, '
             'valid and malformed IPv4/IPv6 address strings (every listed spelling through NextHop and Prefix), out-of-range enums and u32 fields, '
@@ -584,8 +585,10 @@ class Prop:
         '(uint32 fields below 2^32: api_in_range) are modelled by hand from their documentation; bit tests on u8 values are written arithmetically in the model',
         'what is modelled of attr_to_api / attr_from_api is the core: ORIGIN, AS_PATH, NEXT_HOP, MED, LOCAL_PREF, ATOMIC_AGGREGATE, AGGREGATOR, COMMUNITIES, ORIGINATOR_ID, '
         'CLUSTER_LIST, EXTENDED_COMMUNITIES (all twelve variants of read_extcom/write_extcom), LARGE_COMMUNITIES, Unknown (incl. MP_REACH/MP_UNREACH/AS4_PATH/AS4_AGGREGATOR/AIGP '
-        'and opaque); NLRI: Prefix and LabeledPrefix arms. TUNNEL_ENCAP, PREFIX_SID, BGP-LS attribute, MpReach message, VPN / EVPN / flowspec / MUP / SR-policy / RTC / BGP-LS NLRI '
-        'are covered by the wide differential part only (sampling, no proof): the property is claimed partial for them',
+        'and opaque); NLRI: Prefix, LabeledPrefix, LabeledVPNIPPrefix arms and the five EVPN route types (RD, ESI, MAC and IP address text). '
+        'For TUNNEL_ENCAP, PREFIX_SID and the BGP-LS attribute only the lossless-or-raw wrapper of attr_to_api is modelled (theorems noncore_*): the typed TLV converters are uninterpreted '
+        'functions there, so the round trip is proved for whatever they compute but a panic inside them, and what the typed form looks like, is covered by the wide differential part only; '
+        'the MpReach message and the flowspec / MUP / SR-policy / RTC / BGP-LS NLRI families are covered by the wide differential part only (sampling, no proof): the property is claimed partial for them',
         'the wire decoder is modelled only as far as C17 needs it (Attribute::decode in four-octet-AS form and the per-attribute admission of the UPDATE arm); '
         'two-octet-AS sessions, treat-as-withdraw and NLRI decoding are exercised by the wide part only',
         'the comparator is modelled for one comparison between paths of two sources of equal role that are not stale (what Table::insert does against a destination holding one path); '
